@@ -310,6 +310,10 @@ func (p LinearPacer) Pace(elapsed time.Duration, hits uint64) (time.Duration, bo
 	}
 
 	delta := float64(hits+1) - expectedHits
+	if interval*delta >= math.MaxInt64 {
+		// We would overflow wait if we continued, so stop the attack.
+		return 0, true
+	}
 	wait := time.Duration(interval * delta)
 
 	return wait, false
